@@ -66,6 +66,8 @@ impl Default for Algorithm {
     }
 }
 
+const MAX_HOPS: u32 = 8;
+
 pub fn from_value(value: &serde_yaml::Value) -> Result<ConnectorRef, Error> {
     let ret: LoadBalanceConnector =
         serde_yaml::from_value(value.clone()).context("parse config")?;
@@ -118,7 +120,23 @@ impl Connector for LoadBalanceConnector {
         };
         let next = conn.name().to_owned();
         debug!("{}: selected connector: {}", self.name, next);
-        ctx.write().await.set_connector(next);
+        // balancers may list other balancers; a cycle (a -> b -> a, or a -> a) would recurse for ever
+        let hops = {
+            let mut ctx = ctx.write().await;
+            let hops = ctx
+                .extra("loadbalance-hops")
+                .and_then(|x| x.parse::<u32>().ok())
+                .unwrap_or(0)
+                + 1;
+            ctx.set_extra("loadbalance-hops", hops).set_connector(next);
+            hops
+        };
+        ensure!(
+            hops <= MAX_HOPS,
+            "{}: load balancers nested more than {} levels deep, is there a cycle?",
+            self.name,
+            MAX_HOPS
+        );
         conn.connect(state, ctx).await
     }
 }
